@@ -78,6 +78,30 @@ func (s *server) Invoke(ctx context.Context, input bin.Encoder, output bin.Decod
 			return err
 		}
 		resp = s.history(r.OffsetID, r.OffsetDate, r.AddOffset, r.Limit)
+	case tg.MessagesGetSavedHistoryRequestTypeID:
+		var r tg.MessagesGetSavedHistoryRequest
+		if err := r.Decode(&buf); err != nil {
+			return err
+		}
+		resp = s.history(r.OffsetID, r.OffsetDate, r.AddOffset, r.Limit)
+	case tg.MessagesGetUnreadMentionsRequestTypeID:
+		var r tg.MessagesGetUnreadMentionsRequest
+		if err := r.Decode(&buf); err != nil {
+			return err
+		}
+		resp = s.history(r.OffsetID, 0, r.AddOffset, r.Limit)
+	case tg.MessagesGetUnreadReactionsRequestTypeID:
+		var r tg.MessagesGetUnreadReactionsRequest
+		if err := r.Decode(&buf); err != nil {
+			return err
+		}
+		resp = s.history(r.OffsetID, 0, r.AddOffset, r.Limit)
+	case tg.MessagesGetUnreadPollVotesRequestTypeID:
+		var r tg.MessagesGetUnreadPollVotesRequest
+		if err := r.Decode(&buf); err != nil {
+			return err
+		}
+		resp = s.history(r.OffsetID, 0, r.AddOffset, r.Limit)
 	case tg.MessagesGetDialogsRequestTypeID:
 		var r tg.MessagesGetDialogsRequest
 		if err := r.Decode(&buf); err != nil {
@@ -235,6 +259,13 @@ type wMsg struct {
 	Dates string `json:"dates"`   // distinct | equal
 	Via   string `json:"via"`     // iter | collect | foreach
 	Start int    `json:"from_id"` // 0 = from the newest; otherwise the builder's OffsetID (index into the history, 1-based from the newest)
+	// StartBy "date": the start position is given through the builder's OffsetDate instead of OffsetID (histories with distinct dates, builders that have the option)
+	StartBy string `json:"start_by,omitempty"`
+	// Probe (via iter only): what the caller does between Next and Value ("i of total" progress displays):
+	//	total      Iterator.Total between every Next and the Value that follows
+	//	fetchtotal Iterator.FetchTotal (a fresh limit-1 request) between every Next and the Value that follows
+	//	total-first / fetchtotal-first: once, before the first Next
+	Probe string `json:"probe,omitempty"`
 }
 
 func makeHistory(n int, ids, dates string) []msgItem {
@@ -294,6 +325,9 @@ func compare(got, want []int) (string, bool) {
 func evalMessages(w wMsg) kit.Result {
 	hist := makeHistory(w.N, w.IDs, w.Dates)
 	srv := &server{hist: hist, kind: w.Kind, cap: 3*w.N + 12}
+	if w.Probe != "" {
+		srv.cap += w.N + 2 // one extra request per probe
+	}
 	raw := tg.NewClient(srv)
 	qb := messages.NewQueryBuilder(raw)
 	startID := 0
@@ -310,18 +344,47 @@ func evalMessages(w wMsg) kit.Result {
 		}
 		startID = hist[w.Start-1].id // iteration starts below this message
 	}
+	startDate := 0
+	if w.StartBy == "date" {
+		if w.Start == 0 || w.Dates != "distinct" {
+			return kit.Result{Trivial: true, Outcome: "skipped"}
+		}
+		startID, startDate = 0, hist[w.Start-1].date
+	}
+	user := &tg.InputPeerUser{UserID: 10, AccessHash: 77}
 	var it *messages.Iterator
 	var collect func(ctx context.Context) ([]messages.Elem, error)
 	var forEach func(ctx context.Context, cb func(context.Context, messages.Elem) error) error
 	switch w.Query {
 	case "history":
-		b := qb.GetHistory(&tg.InputPeerUser{UserID: 10, AccessHash: 77}).BatchSize(w.Page).OffsetID(startID)
+		b := qb.GetHistory(user).BatchSize(w.Page).OffsetID(startID).OffsetDate(startDate)
 		it, collect, forEach = b.Iter(), b.Collect, b.ForEach
+	case "saved":
+		b := qb.GetSavedHistory(user).BatchSize(w.Page).OffsetID(startID).OffsetDate(startDate)
+		it, collect, forEach = b.Iter(), b.Collect, b.ForEach
+	case "mentions", "reactions", "pollvotes":
+		if startDate != 0 {
+			return kit.Result{Trivial: true, Outcome: "skipped"} // no OffsetDate option
+		}
+		switch w.Query {
+		case "mentions":
+			b := qb.GetUnreadMentions(user).BatchSize(w.Page).OffsetID(startID)
+			it, collect, forEach = b.Iter(), b.Collect, b.ForEach
+		case "reactions":
+			b := qb.GetUnreadReactions(user).BatchSize(w.Page).OffsetID(startID)
+			it, collect, forEach = b.Iter(), b.Collect, b.ForEach
+		default:
+			b := qb.GetUnreadPollVotes(user).BatchSize(w.Page).OffsetID(startID)
+			it, collect, forEach = b.Iter(), b.Collect, b.ForEach
+		}
 	case "search":
+		if startDate != 0 {
+			return kit.Result{Trivial: true, Outcome: "skipped"} // no OffsetDate option
+		}
 		b := qb.Search(&tg.InputPeerUser{UserID: 10, AccessHash: 77}).Q("x").Filter(&tg.InputMessagesFilterEmpty{}).BatchSize(w.Page).OffsetID(startID)
 		it, collect, forEach = b.Iter(), b.Collect, b.ForEach
 	case "replies":
-		b := qb.GetReplies(&tg.InputPeerUser{UserID: 10, AccessHash: 77}).MsgID(1).BatchSize(w.Page).OffsetID(startID)
+		b := qb.GetReplies(&tg.InputPeerUser{UserID: 10, AccessHash: 77}).MsgID(1).BatchSize(w.Page).OffsetID(startID).OffsetDate(startDate)
 		it, collect, forEach = b.Iter(), b.Collect, b.ForEach
 	default:
 		return kit.Bad("harness-error", "query %q", w.Query)
@@ -332,13 +395,27 @@ func evalMessages(w wMsg) kit.Result {
 	stopHeld := true
 	switch w.Via {
 	case "iter":
-		for it.Next(ctx) {
+		var probeErr error
+		probe := func(first bool) {
+			switch {
+			case w.Probe == "total" && !first, w.Probe == "total-first" && first:
+				_, probeErr = it.Total(ctx)
+			case w.Probe == "fetchtotal" && !first, w.Probe == "fetchtotal-first" && first:
+				_, probeErr = it.FetchTotal(ctx)
+			}
+		}
+		probe(true)
+		for probeErr == nil && it.Next(ctx) {
+			probe(false)
 			got = append(got, it.Value().Msg.GetID())
 			if len(got) > 4*w.N+16 {
 				break
 			}
 		}
 		err = it.Err()
+		if err == nil {
+			err = probeErr
+		}
 		if err == nil && it.Next(ctx) { // it said "no more": it must keep saying so
 			stopHeld = false
 		}
@@ -379,6 +456,9 @@ func evalMessages(w wMsg) kit.Result {
 		exact = "empty"
 	}
 	res.Outcome = fmt.Sprintf("messages/%s/%s", w.Kind, exact)
+	if w.Probe != "" || w.StartBy != "" {
+		res.Outcome = fmt.Sprintf("messages/%s/probe=%s/start-by=%s", exact, w.Probe, w.StartBy)
+	}
 	return res
 }
 
@@ -396,6 +476,7 @@ type wDlg struct {
 	Page  int    `json:"page"`
 	Order string `json:"order"` // dates: distinct top-message dates; ids: equal dates, distinct top ids; peers: equal dates and ids (channels), peer id decides
 	Via   string `json:"via"`   // iter | collect | foreach
+	Probe string `json:"probe,omitempty"` // as for messages
 }
 
 func makeDialogs(n int, order string) []dlgItem {
@@ -428,6 +509,9 @@ func dialogID(e dialogs.Elem) int {
 func evalDialogs(w wDlg) kit.Result {
 	ds := makeDialogs(w.N, w.Order)
 	srv := &server{dlgs: ds, kind: w.Kind, cap: 3*w.N + 12}
+	if w.Probe != "" {
+		srv.cap += w.N + 2
+	}
 	b := dialogs.NewQueryBuilder(tg.NewClient(srv)).GetDialogs().BatchSize(w.Page)
 	ctx := context.Background()
 	var got []int
@@ -436,13 +520,27 @@ func evalDialogs(w wDlg) kit.Result {
 	switch w.Via {
 	case "iter":
 		it := b.Iter()
-		for it.Next(ctx) {
+		var probeErr error
+		probe := func(first bool) {
+			switch {
+			case w.Probe == "total" && !first, w.Probe == "total-first" && first:
+				_, probeErr = it.Total(ctx)
+			case w.Probe == "fetchtotal" && !first, w.Probe == "fetchtotal-first" && first:
+				_, probeErr = it.FetchTotal(ctx)
+			}
+		}
+		probe(true)
+		for probeErr == nil && it.Next(ctx) {
+			probe(false)
 			got = append(got, dialogID(it.Value()))
 			if len(got) > 4*w.N+16 {
 				break
 			}
 		}
 		err = it.Err()
+		if err == nil {
+			err = probeErr
+		}
 		if err == nil && it.Next(ctx) {
 			stopHeld = false
 		}
@@ -488,6 +586,9 @@ func evalDialogs(w wDlg) kit.Result {
 		exact = "empty"
 	}
 	res.Outcome = fmt.Sprintf("dialogs/%s/%s", w.Kind, exact)
+	if w.Probe != "" {
+		res.Outcome = fmt.Sprintf("dialogs/%s/probe=%s", exact, w.Probe)
+	}
 	return res
 }
 
@@ -501,6 +602,8 @@ func main() {
 		maxN := 8
 		queries := []string{"history", "search"}
 		vias := []string{"iter", "collect"}
+		others := []string{"replies", "saved", "mentions", "reactions", "pollvotes"} // the other offset-id paginated builders: iter only, dense ids
+		probes := []string{"total", "fetchtotal", "total-first", "fetchtotal-first"}
 		if c.Thorough() {
 			maxN = 14
 			queries = []string{"history", "search", "replies"}
@@ -514,7 +617,10 @@ func main() {
 			"x order decided by {top message date, top message id at equal dates, peer id at equal dates and ids}. The fake tg.Invoker decodes the real request "+
 			"from the wire format and answers by the API's offset semantics (messages older than offset_id, else older than offset_date; dialogs strictly after "+
 			"(offset_date, offset_id, offset_peer)), full pages. Oracle = the statement: the yielded ids are exactly the server's list, once each, in order; "+
-			"iteration ends without error, within 3N+12 requests, and Next stays false.", maxN, queries, vias, maxN)
+			"iteration ends without error, within 3N+12 requests, and Next stays false. Further dimensions (all N, page sizes and response kinds): the other offset-id paginated "+
+			"builders %v (Iter, both starts); the start position given by the builder's OffsetDate instead of OffsetID (GetHistory, GetReplies, GetSavedHistory; distinct dates); and "+
+			"for GetHistory, Search and GetDialogs the caller's progress probe %v: Iterator.Total or Iterator.FetchTotal (a fresh limit-1 request answered by the same server) called "+
+			"between every Next and the Value that follows, or once before the first Next.", maxN, queries, vias, maxN, others, probes)
 		c.Assume("server pages are full (limit items while more remain), message ids are positive, every dialog's top message and peer entity are in the response")
 		c.Set("max_items", maxN)
 		for n := 0; n <= maxN; n++ {
@@ -540,6 +646,30 @@ func main() {
 					for _, order := range []string{"dates", "ids", "peers"} {
 						for _, via := range vias {
 							fd.Eval(wDlg{Kind: kind, N: n, Page: page, Order: order, Via: via})
+						}
+						for _, pr := range probes {
+							fd.Eval(wDlg{Kind: kind, N: n, Page: page, Order: order, Via: "iter", Probe: pr})
+						}
+					}
+				}
+				for _, kind := range []string{"channel", "slice", "full", "full-tail"} {
+					starts := []int{0}
+					if n >= 2 {
+						starts = append(starts, n/2)
+					}
+					for _, st := range starts {
+						for _, q := range others {
+							fm.Eval(wMsg{Query: q, Kind: kind, N: n, Page: page, IDs: "dense", Dates: "distinct", Via: "iter", Start: st})
+						}
+						for _, q := range []string{"history", "replies", "saved"} {
+							if st != 0 {
+								fm.Eval(wMsg{Query: q, Kind: kind, N: n, Page: page, IDs: "gaps", Dates: "distinct", Via: "iter", Start: st, StartBy: "date"})
+							}
+						}
+						for _, q := range []string{"history", "search"} {
+							for _, pr := range probes {
+								fm.Eval(wMsg{Query: q, Kind: kind, N: n, Page: page, IDs: "dense", Dates: "distinct", Via: "iter", Start: st, Probe: pr})
+							}
 						}
 					}
 				}
